@@ -939,6 +939,25 @@ def run_case(case, dec):
                              err, api, dt), holder="System", call=api)
         except InjectedFault:
             raise
+    # the operator constants the library hands out must still be what they
+    # were (a computation scribbling on a shared module-level array would
+    # poison the fresh-object replays as well)
+    import oqupy.operators as opr
+    consts = {"x": [[0, 1], [1, 0]], "y": [[0, -1j], [1j, 0]],
+              "z": [[1, 0], [0, -1]], "id": [[1, 0], [0, 1]],
+              "+": [[0, 1], [0, 0]], "-": [[0, 0], [1, 0]]}
+    for nm, val in consts.items():
+        if not np.array_equal(np.array(opr.sigma(nm)), np.array(val)):
+            viol("library_constant_modified", "operators.sigma/" + nm,
+                 "oqupy.operators.sigma(%r) no longer returns the Pauli "
+                 "matrix after this history" % nm, holder="operators")
+    for nm, val in {"up": [[1, 0], [0, 0]], "down": [[0, 0], [0, 1]],
+                    "x+": [[0.5, 0.5], [0.5, 0.5]]}.items():
+        if not np.allclose(np.array(opr.spin_dm(nm)), np.array(val),
+                           atol=1e-15):
+            viol("library_constant_modified", "operators.spin_dm/" + nm,
+                 "oqupy.operators.spin_dm(%r) changed" % nm,
+                 holder="operators")
     return {
         "violations": violations[:3], "notes": [], "digest": log.digest(),
         "events": len(log), "sim_ms": 0, "outcomes": ["done"],
